@@ -19,17 +19,25 @@ void parseTypedRecord(const DnsResourceRecord *rr, DnsResult *result, const uint
                      result.txt_records, result.ptr_records, result.soa_records
 #define GHOSTS G_name_end, G_name_start, G_rd_off, G_rd_ret, G_rd_calls
 
+/* the lower bound on the offset ("every announced question/record took its minimum size") is only carried in proof `parse_counts`
+ * (define PARSE_COUNTS): it is what clause M5 needs and it is the expensive part (multiplications by the loop counters) */
+#ifdef PARSE_COUNTS
+#define MIN_OFF(e) (offset >= (e))
+#else
+#define MIN_OFF(e) 1
+#endif
+
 /* loop 1: questions. A question is at least 5 octets (1 name octet + QTYPE + QCLASS). */
 #define IORA_LOOP_DnsMessage_parse_1 IORA_LC( \
   __CPROVER_assigns(i, offset, iora_exc, result.questions, GHOSTS) \
   __CPROVER_loop_invariant(iora_exc == EXC_NONE && i <= result.header.qdcount && result.questions.n == i) \
-  __CPROVER_loop_invariant(offset <= size && offset >= 12 + 5 * (size_t)i) \
+  __CPROVER_loop_invariant(offset <= size && offset >= 12 && MIN_OFF(12 + 5 * (size_t)i)) \
   __CPROVER_decreases(result.header.qdcount - i))
 /* loops 2-4: answer / authority / additional records. A record is at least 11 octets (1 name octet + 10 fixed octets). */
 #define RR_LOOP(list, cnt, base_off, base_typed) IORA_LC( \
   __CPROVER_assigns(i, offset, iora_exc, iora_exc_caught, result.list, TYPED_ASSIGN, GHOSTS) \
   __CPROVER_loop_invariant(iora_exc == EXC_NONE && i <= (cnt) && result.list.n == i) \
-  __CPROVER_loop_invariant(offset <= size && offset >= (base_off) + 11 * (size_t)i) \
+  __CPROVER_loop_invariant(offset <= size && offset >= 12 && MIN_OFF((base_off) + 11 * (size_t)i)) \
   __CPROVER_loop_invariant(TYPED_LE((base_typed) + (size_t)i)) \
   __CPROVER_decreases((cnt) - i))
 #define IORA_LOOP_DnsMessage_parse_2 RR_LOOP(answers, result.header.ancount, 12 + 5 * P_QD, 0)
